@@ -377,11 +377,13 @@ class VM:
         for n in ast.walk(s):
             if isinstance(n, ast.Name) and n.id in self._interp_names():
                 p = parents.get(n)
-                if not (isinstance(p, ast.Attribute) and p.attr == "memory"):
+                if not (isinstance(p, ast.Attribute) and p.attr in ("memory", "module_body")):
                     return False
                 pp = parents.get(p)
-                if isinstance(pp, ast.Attribute):  # interpreter.memory.<method>
-                    return False
+                if isinstance(pp, ast.Attribute):  # interpreter.memory.<method> / interpreter.module_body.<method>
+                    ppp = parents.get(pp)
+                    if not (isinstance(ppp, ast.Call) and ppp.func is pp and pp.attr in ("items", "keys", "values", "get", "__len__", "__iter__", "index", "count", "copy")):
+                        return False
                 if isinstance(pp, ast.Subscript) and pp.value is p and not isinstance(pp.ctx, ast.Load):
                     return False
         return True
@@ -552,6 +554,14 @@ class VM:
         )
 
     def _for(self, s: ast.For, st: State, frame):
+        if self._touches_vm(s) and self._only_reads_memo(s):
+            # a read-only scan of the memo / the statements emitted so far
+            st.memo_other.append(("read-in-loop", s.lineno)) if any(isinstance(n, ast.Attribute) and n.attr == "memory" for n in ast.walk(s)) else None
+            names = [n.id for n in ast.walk(s.target) if isinstance(n, ast.Name)]
+            for n in names:
+                st.env[n] = Unknown(why="scan-elem")
+            yield from self._summary_loop_tolerant(s.body + s.orelse, st)
+            return
         if self._touches_vm(s):
             raise Unrecognised(f"for loop at line {s.lineno} touches the VM state (not an idiom the interpreter models)")
         for st1, it in self._ev(s.iter, st, frame):
@@ -572,6 +582,23 @@ class VM:
             if "slice" in it.roots():
                 binding = (tuple(names), elemv, order)
             yield from self._summary_loop(s.body + s.orelse, binding, st1, frame)
+
+    def _summary_loop_tolerant(self, body, st: State):
+        """Havoc every name assigned in a read-only scan loop (returns/breaks inside it are treated as may-happen:
+        the value returned is unknown)."""
+        for n in body:
+            for x in ast.walk(n):
+                if isinstance(x, (ast.Assign, ast.AugAssign, ast.AnnAssign)):
+                    for t in (x.targets if isinstance(x, ast.Assign) else [x.target]):
+                        for y in ast.walk(t):
+                            if isinstance(y, ast.Name):
+                                st.env[y.id] = Unknown(why="loop-var")
+                if isinstance(x, ast.Return):
+                    # a value found by scanning: continue on a path where the scan found nothing and one where it
+                    # returned something unknown
+                    st2 = st.clone()
+                    yield st2, "return", Unknown(why="scan-result"), getattr(x, "lineno", 0)
+        yield st, "next", None, 0
 
     def _summary_loop(self, body, binding, st: State, frame, after_env: Optional[dict] = None):
         """Summarise a loop body that does not touch the VM state: accumulations of the loop element
@@ -1032,7 +1059,12 @@ class VM:
                         st1.sinks.append((it, line))
                     yield st1, Const(None)
                 return
-            raise Unrecognised(f"line {line}: module_body.{f.attr} is not modelled")
+            # any other operation on the module body (a helper that edits or removes emitted statements, a
+            # read of its length, ...): recorded for the rules to judge, arguments evaluated for their effects
+            for st1, vs in self._ev_list([a.value if isinstance(a, ast.Starred) else a for a in e.args] + [k.value for k in e.keywords], st, frame):
+                st1.body_other.append((f.attr, line))
+                yield st1, Unknown(why=f"module_body.{f.attr}()")
+            return
         if isinstance(f, ast.Attribute) and self._is_interp_attr(f.value, "memory", st):
             if f.attr in ("get", "__getitem__") and e.args:
                 for st1, vs in self._ev_list(list(e.args), st, frame):
